@@ -231,9 +231,10 @@ Judge(e) ==
           \cup (IF P.stable /\ (\E r \in PRows(L), q \in PRows(P) : r.id = q.id /\ r.rid # q.rid) THEN {"RowIdStable"} ELSE {})
      [] op = "compact" ->
           (IF P.v \in {Lv, Lv + 1, Lv + 2} THEN {} ELSE {"OneVersionPerCommit"})
+          \* (without stable row ids rid / cre / upd are constant markers, so this compares keys and values)
           \cup (IF {[id |-> r.id, val |-> r.val, rid |-> r.rid, cre |-> r.cre, upd |-> r.upd] : r \in PRows(P)}
                    = {[id |-> r.id, val |-> r.val, rid |-> r.rid, cre |-> r.cre, upd |-> r.upd] : r \in PRows(L)}
-                   \/ ~P.stable
+                   /\ Cardinality(PRows(P)) = Cardinality(PRows(L))
                 THEN {} ELSE {"RewritePreservesContents"})
           \* stable row ids survive a rewrite
           \cup (IF P.stable /\ (\E r \in PRows(L), q \in PRows(P) : r.id = q.id /\ r.rid # q.rid) THEN {"RowIdStable"} ELSE {})
